@@ -41,6 +41,10 @@ import DadiVerif.Model.DataDict
    vcflines filt lines                      -> ok s|REF:ALT:AA …   the reader's token-level decisions line by line (`lineKept`, `lineAa`):
                                                lines = FILTER,REF,ALT,INFO;…  each text as the hex of its bytes (`-` = empty); answer per line
                                                `s` (does not enter the dictionary), `e` (IndexError) or the recorded texts in hex
+   gtpool want lines                        -> ok n,n,…   sub-sampling branch on the sample texts (generated `vcfSubDrawable`): the sizes of the pools
+                                               drawn from, line by line, population by population until one has too few
+                                               lines = sample+…;…   sample = pop:gt:ad:dp  (texts in hex, `x` = field absent)
+   gtcalls popIds lines                     -> ok r:a+…;…  branch without sub-sampling on the sample texts (generated `vcfNoSubSkip`, stride, tokens)
    projw m n i j / chunkidx size p / shapes -> ok … -/
 namespace DadiVerif.Driver.DataDict
 open DadiVerif DadiVerif.Proto DadiVerif.DataDict DadiVerif.Gen.DD
@@ -160,6 +164,19 @@ def fn1 (pol : Bool) (n : Nat) (snps : List Snp) : Nat → Rat :=
 
 def showStats (S pi w tl tv : Rat) : String :=
   " ".intercalate [showRat S, showRat pi, showRat w, showRat tl, showRat tv]
+
+/-- a text that may be absent: `x` = none, otherwise hex (`-` = empty) -/
+def unhexOpt (s : String) : Option (Option (List Char)) := if s = "x" then some none else (unhex s).map some
+
+/-- one sample column on the wire: pop:gt:ad:dp  (pop `-` = not in the popinfo file; texts in hex, `x` = field absent) -/
+def parseSampleText (s : String) : Option SampleText :=
+  match s.splitOn ":" with
+  | [p, gt, ad, dp] => do
+      let p ← parseOptNat p; let gt ← unhex gt; let ad ← unhexOpt ad; let dp ← unhexOpt dp
+      some { pop := p, gt := gt, ad := ad, dp := dp }
+  | _ => none
+
+def showNats (l : List Nat) : String := if l.isEmpty then "-" else ",".intercalate (l.map toString)
 
 def handle (toks : List String) : Option String :=
   match toks with
@@ -331,6 +348,15 @@ def handle (toks : List String) : Option String :=
         else match lineAa l with
           | none => "e"
           | some aa => ":".intercalate [tohex (alleleText l.ref), tohex (alleleText l.alt), tohex aa]))
+  | ["gtpool", want, lines] => do
+      let want ← parseWant want
+      let ls ← (splitList lines ";").mapM fun l => (splitList l "+").mapM parseSampleText
+      some ("ok " ++ showNats (ls.flatMap fun l => textPoolSizes l want (textPopOrder l want)))
+  | ["gtcalls", popIds, lines] => do
+      let popIds ← parseNatList popIds
+      let ls ← (splitList lines ";").mapM fun l => (splitList l "+").mapM parseSampleText
+      some ("ok " ++ ";".intercalate (ls.map fun l => "+".intercalate (popIds.map fun p =>
+        let c := textCallsOfPop l p; toString c.1 ++ ":" ++ toString c.2)))
   | ["shapes13"] =>
       some ("ok " ++ " ".intercalate ([accumulateShapeOk, foldIffUnpolarized, fromDataDictShapeOk, sShapeOk, keyParseShapeOk,
         chunkLoopShapeOk, chunkRebuildShapeOk, bootstrapShapeOk, foldMaskShapeOk, statsSelfWrites.isEmpty, bsvShapeOk,
